@@ -4,7 +4,7 @@ From RU Require Import Base.Prelude Base.Utf8 Model.AsciiSet Gen.Tables Model.Pe
   Model.HostT Model.UrlRecord Model.Parser Model.Setters Model.WF
   Proofs.ListN Proofs.C03_WF Proofs.C06_List Proofs.C06_WFI Proofs.C06_Tail Proofs.C06_Steps Proofs.C06_Suffix
   Proofs.C06_Front Proofs.C06_Atomic Proofs.C06_FragQuery Proofs.C06_Port Proofs.C06_Cred Proofs.C06_Scheme
-  Proofs.C06_HostNone Proofs.C06_Host Proofs.C06_PathParser Proofs.C06_Path Proofs.C06_Segments.
+  Proofs.C06_HostNone Proofs.C06_Host Proofs.C06_PathParser Proofs.C06_Path Proofs.C06_Segments Proofs.C06_PathNoAuth.
 
 Ltac splits := repeat match goal with |- _ /\ _ => split end.
 
@@ -400,6 +400,25 @@ Proof.
   - intros p u' Hp Hx E. destruct (set_path_ok dbg u p u' W HT Ha Hp Hx E) as (W' & HT' & A & B & C & D).
     split; [split; assumption|]. splits; assumption.
   - intros ops u' Hops E. destruct (path_segments_session_ok dbg u ops u' W HT Ha Hops E) as (W' & HT' & A & B & C & D).
+    split; [split; assumption|]. splits; assumption.
+Qed.
+
+(* the same two editors on an authority-less URL whose path starts with '/' (no marker): provided the
+   result does not start with "//" *)
+Theorem path_noauth_all u : wf_b u = true -> noauth_slash_path u ->
+  (forall p u', usv_list p -> set_path dbg u p = Some u' -> path_starts_with_2slash u' = false ->
+     wfh u' /\ same_front dbg u u' /\ query dbg u' = query dbg u /\ fragment dbg u' = fragment dbg u
+     /\ exists P, path u' = Some P /\ new_path_ok P)
+  /\ (forall ops u', Forall psm_op_usv ops -> path_segments_session dbg u ops = Some (u', SOk) ->
+     path_starts_with_2slash u' = false ->
+     wfh u' /\ same_front dbg u u' /\ query dbg u' = query dbg u /\ fragment dbg u' = fragment dbg u
+     /\ exists P, path u' = Some P /\ new_path_ok P).
+Proof.
+  intros W NA. split.
+  - intros p u' Hp E Hss. destruct (set_path_noauth_ok dbg u p u' W NA Hp E Hss) as (W' & HT' & A & B & C & D).
+    split; [split; assumption|]. splits; assumption.
+  - intros ops u' Hops E Hss.
+    destruct (path_segments_session_noauth_ok dbg u ops u' W NA Hops E Hss) as (W' & HT' & A & B & C & D).
     split; [split; assumption|]. splits; assumption.
 Qed.
 
